@@ -89,7 +89,7 @@ CLAIMS["C03"] = dict(
     ref="DESIGN.md §5 C03",
 )
 CLAIMS["C14"] = dict(
-    text="Clear path of the lookup table at extension factor 1: lookup_table_rotate(k) is decided to be multiplication by X^k in Z[X]/(X^N+1) on fully symbolic table contents for every k in [-2N,2N], N in {2,4,8}; lookup_table_set is decided to produce X^(-drift)*L with L holding f_i*2^-k on the i-th block of step coefficients (sign flip on wrap, drift = step/2) for symbolic function values and several (N, table length, radix, precision) shapes.",
+    text="Clear path of the lookup table at extension factor 1: lookup_table_rotate(k) is decided to be multiplication by X^k in Z[X]/(X^N+1) on fully symbolic table contents for every k in [-2N,2N] at N in {2,4} on every run (complete, quick tier included) and for a per-seed sample of k at N=8 (every k in the thorough tier); lookup_table_set is decided to produce X^(-drift)*L with L holding f_i*2^-k on the i-th block of step coefficients (sign flip on wrap, drift = step/2) for symbolic function values and several (N, table length, radix, precision) shapes.",
     note="NARROW: extension factor > 1 (set and rotate) does not finish under Kani and is covered only by a native validation of the interleaving oracle; mod_switch_2n, set_xai_plus_y and the whole blind path (external products through the DFT) are outside. Table fields are read through the verif-hooks accessors.",
     technique=KANI + "; ring-level oracle validated natively against the code",
     ref="DESIGN.md §5 C14",
